@@ -10,6 +10,7 @@
 -/
 import SnowProofs.Lemmas.Evap
 import SnowModel.EvapWindow
+import SnowProofs.Lemmas.EvapLink
 import Mathlib.Tactic.Tauto
 
 namespace Snow.C20
@@ -199,6 +200,82 @@ theorem evap_cools_iff (p : VISF ℝ) (s : Stage) (t T : ℝ)
       = -((fluxCoef p.kappa p.m_water p.k_B / Real.sqrt T * p.dHe) * (pVap s T - p.p_vac)) := by
     field_simp
   rw [e, neg_nonpos, mul_nonneg_iff_of_pos_left hCs, sub_nonneg]
+
+/-! ### the window logic of the RUN MODELS that are compared with the code
+
+`Snow.qEvap` (Snowing0D/1D) and `S2D.qEvap` (Snowing2D) are the window model's `q_e` — same window
+test, same sign — with their own transcription of the vapour flux, and on the real 1D model a VISF
+run whose window is not met is the shelf run. -/
+
+/-- **link, 1D**: the evaporative flux of the executable 1D model is `EvapWindow.qEWith` (every numeric instance) -/
+theorem window_model_is_1D_model {α : Type} [Transc α] (p : SnowIn α) (pvap : α → α) (t Ttop : α) :
+    Snow.qEvap p pvap t Ttop =
+      match p.visf with
+      | none => Num.zero
+      | some v => qEWith true (EvapLink.ofVisf v p.const.k_B) t
+          (Evap.vapourFlux v.kappa v.m_water p.const.k_B v.p_vac (pvap Ttop) Ttop Ttop) :=
+  EvapLink.qEvap1D_eq p pvap t Ttop
+
+/-- **link, 2D**: column by column, the evaporative flux of the executable 2D model is `EvapWindow.qEWith` -/
+theorem window_model_is_2D_model {α : Type} [Transc α] (c : S2D.Ctx α) (solidStage : Bool) (time : α)
+    (T : Array α) (j : Nat) :
+    ∃ Nw, S2D.qEvap c solidStage time T j =
+      qEWith (decide (c.p.config = S2D.Config.visf)) (EvapLink.ofPar c.p) time Nw :=
+  EvapLink.qEvap2D_eq c solidStage time T j
+
+/-- the generated-flux `q_e` of the window theorems above is the same `qEWith` -/
+theorem window_model_qE (isVISF : Bool) (p : VISF ℝ) (s : Stage) (t T : ℝ) :
+    qE isVISF p s t T =
+      qEWith isVISF p t (Gen.vapour_flux p.kappa p.m_water p.k_B p.p_vac (pVap s T) T T) := rfl
+
+/-- `qEWith` vanishes outside VISF / outside the window, whatever the flux (every numeric instance
+over ℝ): the statement the two links transport to the run models -/
+theorem qEWith_zero_outside (isVISF : Bool) (p : VISF ℝ) (t Nw : ℝ)
+    (h : ¬(isVISF = true ∧ p.t_vac_start * 3600 < t ∧ t < (p.t_vac_start + p.t_vac_duration) * 3600)) :
+    qEWith isVISF p t Nw = 0 := by
+  unfold qEWith
+  by_cases hv : isVISF = true <;> by_cases hw : inWindow p t = true
+  · exact absurd ⟨hv, (inWindow_iff p t).mp hw⟩ h
+  · simp [hw]
+  · simp [hv]
+  · simp [hv]
+
+/-- **real 1D model, whole run**: a VISF run whose vacuum window is met at no time is the shelf
+run — exception, statistics and every history row of `run1DOn` (every numeric instance). -/
+theorem visf_run1D_eq_shelf {α : Type} [Transc α] (p : SnowIn α) (Nz : Nat) (old : Bool) (shelf : List α)
+    (h : ∀ t, EvapLink.notMet p t) :
+    run1DOn p Nz old shelf = run1DOn (EvapLink.shelfOf p) Nz old shelf :=
+  EvapLink.run1DOn_shelf p Nz old shelf h
+
+/-- **real 1D model, empty window**: `t_vac_duration ≤ 0` ⇒ `run1D` of the VISF configuration equals
+`run1D` of the shelf configuration. -/
+theorem visf_run1D_eq_shelf_empty_window (p : SnowIn ℝ) (v : Visf ℝ) (hv : p.visf = some v)
+    (hd : v.t_vac_duration ≤ 0) :
+    run1D p = run1D (EvapLink.shelfOf p) := by
+  have h : ∀ t, EvapLink.notMet p t := by
+    intro t v' hv' ⟨h1, h2⟩
+    rw [hv] at hv'; cases hv'
+    simp only [ofNat'_real] at h1 h2
+    nlinarith
+  exact EvapLink.run1DOn_shelf p NzCode false _ h
+
+/-- **real 1D model, before the window**: if the first `n` step times `dt·i` do not exceed the
+window start, the cooling loop over the first `n` shelf samples — stop index, field, hazard, saved
+rows — is that of the shelf run ("identical up to step n"). -/
+theorem visf_cool1D_eq_shelf_before_window (p : SnowIn ℝ) (v : Visf ℝ) (hv : p.visf = some v) (g : Grid1D ℝ)
+    (old : Bool) (shelf : List ℝ) (n : ℕ) (hdt : 0 ≤ g.dt) (hn : g.dt * n ≤ v.t_vac_start * 3600) :
+    cool1D p g old (shelf.take n) = cool1D (EvapLink.shelfOf p) g old (shelf.take n) := by
+  apply EvapLink.cool1D_shelf
+  intro i hi v' hv' ⟨h1, _⟩
+  rw [hv] at hv'; cases hv'
+  have hin : i < n := by
+    have := List.length_take_le n shelf
+    omega
+  simp only [ofNat'_real] at h1
+  have : g.dt * (i : ℝ) ≤ g.dt * (n : ℝ) :=
+    mul_le_mul_of_nonneg_left (by exact_mod_cast hin.le) hdt
+  have h1' : v.t_vac_start * 3600 < g.dt * (i : ℝ) := by exact_mod_cast h1
+  linarith
 
 /-- the hypotheses are satisfiable: the default VISF parameters, a time inside the default
 window (0.75 h … 0.85 h), a temperature in both proved ranges. -/
